@@ -41,14 +41,17 @@ type Step struct {
 	Early  int    `json:"early,omitempty"` // cg mode: function k (1-based) returns on its own after EarlyMs
 	Wait   bool   `json:"wait,omitempty"`
 	Linger int    `json:"linger,omitempty"` // cg mode: every function takes this many ms to return after its context ended
+	CtxMs  int    `json:"ctxMs,omitempty"`  // commitlast: the context of CommitMessages ends after this many ms (the caller gives up)
+	PaceUs int    `json:"paceUs,omitempty"` // fetch: pause between two FetchMessage calls (a steadily consuming application)
 }
 
 type Script struct {
 	ID          string         `json:"id"`
 	Mode        string         `json:"mode"` // reader | cg
 	Topics      map[string]int `json:"topics"`
-	Records     int            `json:"records"`     // records initially stored per partition
-	StartOffset int64          `json:"startOffset"` // -2 first, -1 last
+	Records     int            `json:"records"`        // records initially stored per partition
+	QCap        int            `json:"qcap,omitempty"` // Reader.QueueCapacity (default 10)
+	StartOffset int64          `json:"startOffset"`    // -2 first, -1 last
 	CommitMs    int            `json:"commitIntervalMs"`
 	HeartbeatMs int            `json:"heartbeatMs"`
 	BackoffMs   int            `json:"backoffMs"`
@@ -60,15 +63,17 @@ type Script struct {
 func valueOf(t string, p int, off int64) []byte { return []byte(fmt.Sprintf("%s/%d@%d", t, p, off)) }
 
 type member struct {
-	id     int
-	owner  string
-	rd     *kafka.Reader
-	cg     *kafka.ConsumerGroup
-	cmds   chan func()
-	done   chan struct{}
-	last   []kafka.Message
-	cancel context.CancelFunc
-	closed bool
+	id        int
+	owner     string
+	rd        *kafka.Reader
+	cg        *kafka.ConsumerGroup
+	cmds      chan func()
+	done      chan struct{}
+	last      []kafka.Message
+	cancel    context.CancelFunc
+	closed    bool
+	commitCtx time.Duration // > 0: CommitMessages gets a context that ends after this long
+	paceUs    int
 }
 
 type run struct {
@@ -490,7 +495,7 @@ func (r *run) newMember(id int) *member {
 	} else {
 		cfg := kafka.ReaderConfig{
 			Brokers: []string{"b1:9092"}, GroupID: "g", Dialer: dialer,
-			QueueCapacity: 10, MinBytes: 1, MaxBytes: 1 << 20, MaxWait: 400 * time.Millisecond,
+			QueueCapacity: qcapOf(sc), MinBytes: 1, MaxBytes: 1 << 20, MaxWait: 400 * time.Millisecond,
 			HeartbeatInterval: hb, JoinGroupBackoff: bo, SessionTimeout: 6 * time.Second, RebalanceTimeout: 1500 * time.Millisecond,
 			CommitInterval: time.Duration(sc.CommitMs) * time.Millisecond, StartOffset: sc.StartOffset,
 			ReadBackoffMin: time.Millisecond, ReadBackoffMax: 10 * time.Millisecond, Logger: logger{r, id},
@@ -519,6 +524,9 @@ const callTimeout = 6 * time.Second
 
 func (r *run) fetch(m *member, n int, commit string) {
 	for i := 0; i < n; i++ {
+		if m.paceUs > 0 {
+			time.Sleep(time.Duration(m.paceUs) * time.Microsecond)
+		}
 		ctx, cancel := context.WithTimeout(context.Background(), callTimeout)
 		var msg kafka.Message
 		var err error
@@ -560,7 +568,11 @@ func (r *run) commit(m *member, msgs []kafka.Message) {
 		list[i] = []interface{}{fmt.Sprintf("%s/%d", x.Topic, x.Partition), x.Offset}
 	}
 	r.rec.Emit(trace.Event{"ev": "commit.call", "m": m.id, "msgs": list, "sync": r.sc.CommitMs == 0})
-	ctx, cancel := context.WithTimeout(context.Background(), callTimeout)
+	to := callTimeout
+	if m.commitCtx > 0 {
+		to = m.commitCtx
+	}
+	ctx, cancel := context.WithTimeout(context.Background(), to)
 	err := m.rd.CommitMessages(ctx, msgs...)
 	cancel()
 	es := ""
@@ -618,6 +630,13 @@ func (r *run) cgLoop(m *member, fns, early, earlyMs, lingerMs int) {
 			}
 		}
 	}()
+}
+
+func qcapOf(sc *Script) int {
+	if sc.QCap > 0 {
+		return sc.QCap
+	}
+	return 10
 }
 
 // Run executes one scenario and returns its trace.
@@ -707,7 +726,8 @@ func Run(sc *Script) []trace.Event {
 		case "fetch":
 			if m := r.members[st.M]; m != nil && !m.closed {
 				done := make(chan struct{})
-				m.cmds <- func() { r.fetch(m, st.N, st.Commit); close(done) }
+				pace := st.PaceUs
+				m.cmds <- func() { m.paceUs = pace; r.fetch(m, st.N, st.Commit); m.paceUs = 0; close(done) }
 				if st.Wait {
 					<-done
 				}
@@ -715,9 +735,12 @@ func Run(sc *Script) []trace.Event {
 		case "commitlast":
 			if m := r.members[st.M]; m != nil && !m.closed {
 				done := make(chan struct{})
+				ctxMs := st.CtxMs
 				m.cmds <- func() {
 					if len(m.last) > 0 {
+						m.commitCtx = time.Duration(ctxMs) * time.Millisecond
 						r.commit(m, m.last[len(m.last)-1:])
+						m.commitCtx = 0
 					}
 					close(done)
 				}
